@@ -1,5 +1,6 @@
 (* Basic facts about the list helpers of SrvModel, shared by the property proofs. *)
 From Coq Require Import List NArith ZArith Bool Arith Lia.
+From RecordUpdate Require Import RecordUpdate.
 From JV Require Import Bytes Msg SrvModel.
 Import ListNotations.
 
@@ -112,4 +113,194 @@ Proof.
   - destruct (step s l) as [[s1 os]|] eqn:E; [|discriminate].
     destruct (run s1 r) as [[s2 oss2]|] eqn:E2; [|discriminate].
     injection H as <- <-. eapply IH; [|exact E2]. eapply reach_step; eauto.
+Qed.
+
+(** * Fine-grained reachability: every intermediate state of every window.
+    [step] = one [step_raw] (a critical section / environment action) followed by a
+    run of [settle1] steps (wake-ups).  [reachf] contains every state [reach] does
+    and the intermediate ones, so an invariant proved by induction on [reachf]
+    holds in every reachable state, and may be used at the intermediate states in
+    the proof of another invariant. *)
+Inductive reachf (c : config) : state -> Prop :=
+| rf_init : reachf c (init_of c)
+| rf_raw s l s' os : reachf c s -> crash s = None -> step_raw s l = Some (s', os) -> reachf c s'
+| rf_settle s s' os : reachf c s -> settle1 s = Some (s', os) -> reachf c s'.
+
+Lemma settle_reachf c : forall fuel s acc s' os, reachf c s -> settle fuel s acc = (s', os) -> reachf c s'.
+Proof.
+  induction fuel as [|f IH]; cbn; intros s acc s' os R H.
+  - injection H as <- <-; auto.
+  - destruct (settle1 s) as [[s1 os1]|] eqn:E.
+    + eapply IH; [|exact H]. eapply rf_settle; eauto.
+    + injection H as <- <-; auto.
+Qed.
+
+Lemma step_reachf c s l s' os : reachf c s -> step s l = Some (s', os) -> reachf c s'.
+Proof.
+  unfold step. intros R H.
+  destruct (crash s) eqn:C; [discriminate|].
+  destruct (step_raw s l) as [[s1 os1]|] eqn:E; [|discriminate].
+  assert (R1 : reachf c s1) by (eapply rf_raw; eauto).
+  destruct (crash s1) eqn:C1.
+  - injection H as <- <-; auto.
+  - destruct (settle (settle_fuel s1) s1 os1) as [s2 os2] eqn:S.
+    injection H as <- <-. eapply settle_reachf; [exact R1|exact S].
+Qed.
+
+Lemma reach_reachf c s : reach c s -> reachf c s.
+Proof. induction 1; [constructor|eapply step_reachf; eauto]. Qed.
+
+(* shape of a window: the raw step, then settling *)
+Lemma step_decompose s l s' os :
+  step s l = Some (s', os) ->
+  crash s = None /\
+  exists s1 os1, step_raw s l = Some (s1, os1) /\
+    ((crash s1 <> None /\ s' = s1 /\ os = os1) \/
+     (crash s1 = None /\ settle (settle_fuel s1) s1 os1 = (s', os))).
+Proof.
+  unfold step. intros H.
+  destruct (crash s) eqn:C; [discriminate|]. split; auto.
+  destruct (step_raw s l) as [[s1 os1]|] eqn:E; [|discriminate].
+  exists s1, os1. split; auto.
+  destruct (crash s1) eqn:C1.
+  - injection H as <- <-. left. repeat split; congruence.
+  - right. destruct (settle (settle_fuel s1) s1 os1) as [s2 os2] eqn:S.
+    injection H as <- <-. auto.
+Qed.
+
+
+
+
+(* counting with a boolean predicate, and how a point update changes the count *)
+Fixpoint countb {A} (p : A -> bool) (l : list A) : nat :=
+  match l with [] => 0 | x :: r => (if p x then 1 else 0) + countb p r end.
+
+Lemma countb_app {A} (p : A -> bool) l r : countb p (l ++ r) = countb p l + countb p r.
+Proof. induction l as [|x l IH]; cbn; auto. rewrite IH; lia. Qed.
+
+Lemma countb_upd_nth {A} (p : A -> bool) n f l x :
+  nth_error l n = Some x ->
+  countb p (upd_nth n f l) + (if p x then 1 else 0) = countb p l + (if p (f x) then 1 else 0).
+Proof.
+  revert n; induction l as [|y r IH]; intros [|n]; cbn; try discriminate.
+  - intros [= ->]. destruct (p x), (p (f x)); lia.
+  - intros H. specialize (IH _ H). destruct (p y); lia.
+Qed.
+
+Lemma countb_upd_nth_same {A} (p : A -> bool) n f l :
+  (forall x, nth_error l n = Some x -> p (f x) = p x) -> countb p (upd_nth n f l) = countb p l.
+Proof.
+  intros H. destruct (nth_error l n) as [x|] eqn:E.
+  - pose proof (@countb_upd_nth A p n f l x E) as C. rewrite (H _ eq_refl) in C. lia.
+  - rewrite upd_nth_none; auto.
+Qed.
+
+Lemma countb_zero_forall {A} (p : A -> bool) l : countb p l = 0 <-> forall x, In x l -> p x = false.
+Proof.
+  induction l as [|y r IH]; cbn; [tauto|].
+  destruct (p y) eqn:P.
+  - split; [lia|]. intros H. specialize (H y (or_introl eq_refl)). congruence.
+  - rewrite IH. split; intros H; [intros x [<-|I]; auto|intros x I; auto].
+Qed.
+
+(** * Inversion of [settle1]: the six kinds of unhooked consequence *)
+Inductive settle1_spec (s : state) : state -> list obs -> Prop :=
+| S1Recv f q : rd s = RIdle -> ch_in s = f :: q ->
+    settle1_spec s (s <| rd := RHold f |> <| ch_in := q |>) []
+| S1Dequeue : dp s = DWaitWork -> negb (running s) || negb (is_nil_list (inq s)) = true ->
+    settle1_spec s (dequeue s) []
+| S1Barrier u un : dp s = DBarrierWait u -> nbar s = 0 -> nth_error (units s) u = Some un ->
+    settle1_spec s (set_unit u (fun x => x <| u_st := URunning |>) s
+                      <| nbar := u_notes un |> <| wg ::= S |> <| dp := DAtNext |>) []
+| S1UnitSilent i un : find_unit (unit_complete s) 0 (units s) = Some i -> nth_error (units s) i = Some un ->
+    responses (unit_tasks s i) = [] ->
+    settle1_spec s (set_unit i (fun x => x <| u_st := UFinished |>) s <| wg ::= pred |>) []
+| S1UnitDeliver i un : find_unit (unit_complete s) 0 (units s) = Some i -> nth_error (units s) i = Some un ->
+    responses (unit_tasks s i) <> [] ->
+    settle1_spec s (set_unit i (fun x => x <| u_st := UAtDeliver |>) s) []
+| S1WaitRet : 0 < waits s -> wg s = 0 -> inq s = [] ->
+    settle1_spec s (s <| waits ::= pred |>) [OWaitRet (stop_err s)]
+| S1WaitCrash : 0 < waits s -> wg s = 0 -> inq s <> [] ->
+    settle1_spec s (s <| waits ::= pred |> <| crash := Some CrQueueNotEmpty |>) [OCrash CrQueueNotEmpty].
+
+Lemma is_nil_list_true {A} (l : list A) : is_nil_list l = true <-> l = [].
+Proof. destruct l; cbn; split; congruence. Qed.
+
+Lemma settle1_inv s s' os : settle1 s = Some (s', os) -> settle1_spec s s' os.
+Proof.
+  unfold settle1. intros H.
+  assert (T : match find_unit (unit_complete s) 0 (units s) with
+     | Some i =>
+         match nth_error (units s) i with
+         | Some un =>
+             if is_nil_list (responses (unit_tasks s i))
+             then Some (set_unit i (fun x => x <| u_st := UFinished |>) s <| wg ::= pred |>, @nil obs)
+             else Some (set_unit i (fun x => x <| u_st := UAtDeliver |>) s, [])
+         | None => None
+         end
+     | None =>
+         if (0 <? waits s) && (wg s =? 0) then
+           if is_nil_list (inq s)
+           then Some (s <| waits ::= pred |>, [OWaitRet (stop_err s)])
+           else Some (s <| waits ::= pred |> <| crash := Some CrQueueNotEmpty |>, [OCrash CrQueueNotEmpty])
+         else None
+     end = Some (s', os) -> settle1_spec s s' os).
+  { intros Hr.
+    destruct (find_unit (unit_complete s) 0 (units s)) as [i|] eqn:F.
+    - destruct (nth_error (units s) i) as [un|] eqn:U; [|discriminate].
+      destruct (is_nil_list (responses (unit_tasks s i))) eqn:N; injection Hr as <- <-.
+      + eapply S1UnitSilent; eauto. apply is_nil_list_true; auto.
+      + eapply S1UnitDeliver; eauto. intros Z. apply is_nil_list_true in Z. congruence.
+    - destruct ((0 <? waits s) && (wg s =? 0)) eqn:W; [|discriminate].
+      apply andb_true_iff in W as [W1 W2]. apply Nat.ltb_lt in W1. apply Nat.eqb_eq in W2.
+      destruct (is_nil_list (inq s)) eqn:N; injection Hr as <- <-.
+      + apply S1WaitRet; auto. apply is_nil_list_true; auto.
+      + apply S1WaitCrash; auto. intros Z. apply is_nil_list_true in Z. congruence. }
+  assert (K : match dp s with
+     | DWaitWork => if negb (running s) || negb (is_nil_list (inq s)) then Some (dequeue s, @nil obs) else None
+     | DBarrierWait u =>
+         if nbar s =? 0 then
+           match nth_error (units s) u with
+           | Some un => Some (set_unit u (fun x => x <| u_st := URunning |>) s
+                                <| nbar := u_notes un |> <| wg ::= S |> <| dp := DAtNext |>, [])
+           | None => None
+           end
+         else None
+     | _ => None
+     end = Some (s', os) -> settle1_spec s s' os).
+  { intros Hr. destruct (dp s) eqn:D; try discriminate.
+    - destruct (negb (running s) || negb (is_nil_list (inq s))) eqn:B; [|discriminate].
+      injection Hr as <- <-. apply S1Dequeue; auto.
+    - destruct (Nat.eqb_spec (nbar s) 0) as [Z|Z]; [|discriminate].
+      destruct (nth_error (units s) u) as [un|] eqn:U; [|discriminate].
+      injection Hr as <- <-. eapply S1Barrier; eauto. }
+  destruct (rd s) eqn:R.
+  1,3,4: match type of H with
+         | match ?d with Some r => _ | None => _ end = _ =>
+             destruct d as [[a b]|] eqn:D; [injection H as <- <-; apply K; reflexivity | apply T; exact H]
+         end.
+  destruct (ch_in s) as [|f q] eqn:Q.
+  - match type of H with
+    | match ?d with Some r => _ | None => _ end = _ =>
+        destruct d as [[a b]|] eqn:D; [injection H as <- <-; apply K; reflexivity | apply T; exact H]
+    end.
+  - injection H as <- <-. apply S1Recv; auto.
+Qed.
+
+(* the observations a settling run adds are WaitStatus returns and crash reports only *)
+Definition settle_obs (o : obs) : Prop := match o with OWaitRet _ | OCrash _ => True | _ => False end.
+
+Lemma settle1_obs s s' os : settle1 s = Some (s', os) -> Forall settle_obs os.
+Proof. intros H. apply settle1_inv in H. destruct H; repeat constructor. Qed.
+
+Lemma settle_obs_app : forall fuel s acc s' os,
+  settle fuel s acc = (s', os) -> exists extra, os = acc ++ extra /\ Forall settle_obs extra.
+Proof.
+  induction fuel as [|f IH]; cbn; intros s acc s' os H.
+  - injection H as <- <-. exists []. rewrite app_nil_r; auto.
+  - destruct (settle1 s) as [[s1 os1]|] eqn:E.
+    + destruct (IH _ _ _ _ H) as (ex & -> & F).
+      exists (os1 ++ ex). rewrite app_assoc. split; auto.
+      apply Forall_app; split; auto. eapply settle1_obs; eauto.
+    + injection H as <- <-. exists []. rewrite app_nil_r; auto.
 Qed.
